@@ -576,6 +576,326 @@ theorem C18_estimator_bias_fixed_witness :
   · simp [dot, pow2]; norm_num
   · simp [dot, pow2]; norm_num
 
+/-! ## alias class names (strengthening round, seed C18-5)
+
+qtools picks the multiplier CELL from the operands' `mode`, but inside Mux / AndGate / Adder it
+decides which operand is the 1–2 bit "select" operand — and therefore whose bits the product
+takes — by substring tests on the record's `name`.  `stochastic_ternary`, `stochastic_binary`
+(and `bernoulli` for `binary(use_01=True)`) are registered quantizer classes that share a mode
+and a value set with the plain spelling; the reported widths must not depend on the spelling. -/
+
+/-- a weight record that differs from `w` in its class name only, with the same answers to the
+    three substring tests (`"binary" in name`, `"ternary" in name`, `"po2" in name`), gets the
+    same multiplier, kernel accumulator, accumulator and fused accumulator — every layer kind,
+    input type, bias, kernel shape and auto_po2 shift -/
+theorem C18_alias_invariance (kind : LayerKind) (x w : QRec) (n : QName) (b : Option QRec)
+    (shape : List ℕ) (ap : Option (ℤ × ℤ))
+    (hb : n.hasBinary = w.name.hasBinary) (ht : n.hasTernary = w.name.hasTernary)
+    (hp : n.hasPo2 = w.name.hasPo2) :
+    layerTypes kind x { w with name := n } b shape ap =
+      (layerTypes kind x w b shape ap).map fun lt => { lt with weight := { w with name := n } } :=
+  layerTypes_congr_weight kind x w _ b shape ap (makeMultiplier_rename w x n hb ht hp)
+
+/-- the three alias kernel classes get exactly the types of the plain spelling: a
+    `stochastic_ternary` kernel those of `ternary`, `stochastic_binary` those of `binary`,
+    `bernoulli` those of `binary(use_01=True)` — for EVERY input type (also a mode the table
+    does not know: both sides are then `none`) -/
+theorem C18_stochastic_kernel_types (kind : LayerKind) (x : QRec) (b : Option QRec)
+    (shape : List ℕ) (ap : Option (ℤ × ℤ)) :
+    (layerTypes kind x { tTernary with name := .stochastic_ternary } b shape ap =
+      (layerTypes kind x tTernary b shape ap).map fun lt =>
+        { lt with weight := { tTernary with name := .stochastic_ternary } }) ∧
+    (layerTypes kind x { tBinary false with name := .stochastic_binary } b shape ap =
+      (layerTypes kind x (tBinary false) b shape ap).map fun lt =>
+        { lt with weight := { tBinary false with name := .stochastic_binary } }) ∧
+    (layerTypes kind x { tBinary true with name := .bernoulli } b shape ap =
+      (layerTypes kind x (tBinary true) b shape ap).map fun lt =>
+        { lt with weight := { tBinary true with name := .bernoulli } }) :=
+  ⟨C18_alias_invariance kind x tTernary .stochastic_ternary b shape ap rfl rfl rfl,
+   C18_alias_invariance kind x (tBinary false) .stochastic_binary b shape ap rfl rfl rfl,
+   layerTypes_congr_weight kind x (tBinary true) _ b shape ap
+     (makeMultiplier_rename_mode4 (tBinary true) x .bernoulli rfl rfl)⟩
+
+/-- the records the factory makes for the alias classes are covered operands of
+    `C18_preactivation`, as kernels and as inputs, against every fixed-point partner -/
+theorem C18_covered_alias (q : QRec) (hq : WFfixed q) :
+    (∃ r, ofQuantizer { cls := "stochastic_ternary" } = some r ∧ Covered r q ∧ Covered q r) ∧
+    (∃ r, ofQuantizer { cls := "stochastic_binary" } = some r ∧ Covered r q ∧ Covered q r) ∧
+    (∃ r, ofQuantizer { cls := "bernoulli" } = some r ∧ Covered r q ∧ Covered q r) := by
+  refine ⟨⟨_, rfl, ?_, ?_⟩, ⟨_, rfl, ?_, ?_⟩, ⟨_, rfl, ?_, ?_⟩⟩
+  · exact .uf (Or.inl ⟨rfl, rfl, rfl, rfl⟩) hq
+  · exact .fu hq (Or.inl ⟨rfl, rfl, rfl, rfl⟩)
+  · exact .uf (Or.inr ⟨rfl, rfl, rfl, rfl, rfl⟩) hq
+  · exact .fu hq (Or.inr ⟨rfl, rfl, rfl, rfl, rfl⟩)
+  · exact .bf ⟨rfl, rfl, rfl, rfl, rfl⟩ hq
+  · exact .fb hq ⟨rfl, rfl, rfl, rfl, rfl⟩
+
+/-- WITNESS (the configuration of seed C18-5): a `stochastic_ternary` kernel on
+    `quantized_bits(6,2)` inputs, 8 terms, no bias: the product takes the INPUT's `(6, 2)`,
+    the accumulator is `(9, 5, signed)` with step `1/8` and holds `−3.75`; the kernel's own
+    `(2, 2)` would give a `(5, 5)` accumulator with step 2. -/
+theorem C18_stochastic_kernel_witness :
+    let w : QRec := { tTernary with name := .stochastic_ternary }
+    let x : QRec := { tQuantizedBits with bits := 6, intBits := 2, signed := true }
+    ∃ lt, layerTypes .dense x w none [8, 3] = some lt ∧
+      lt.multiplier = { tQuantizedBits with bits := 6, intBits := 2, signed := true } ∧
+      lt.accumulator = { tQuantizedBits with bits := 9, intBits := 5, signed := true } ∧
+      Val lt.accumulator (-15 / 4) ∧ ¬ ValFixed 5 5 true (-15 / 4) := by
+  refine ⟨_, rfl, by decide, by decide, ?_, ?_⟩
+  · show ValFixed 9 5 true (-15 / 4)
+    exact ⟨-30, by decide, by decide, by simp [fixedLsb, b2i, pow2]; norm_num⟩
+  · rw [valFixed_iff (by decide)]
+    rintro ⟨⟨k, hk⟩, _, _⟩
+    simp [fixedLsb, b2i, pow2] at hk
+    have h2 : ((k * 2 : ℤ) : ℚ) = ((-15 : ℤ) : ℚ) / 4 := by push_cast; linarith
+    have h3 : ((k * 8 : ℤ) : ℚ) = ((-15 : ℤ) : ℚ) := by push_cast; push_cast at h2; linarith
+    have := Int.cast_injective h3
+    omega
+
+/-! ## unit-type BIAS quantizers (finding C18-unit-bias-intbits) -/
+
+/-- COUNTEREXAMPLE: a `binary` (±1) bias on a `ternary` kernel with `quantized_bits(2,2)` inputs
+    (values −4, −2, 0, 2): kernel accumulator `(2, 2, signed)`, the bias record `(1, 1, signed)`
+    is read by the FixedPointAdder as a type with −1 fraction bits, so the reported accumulator
+    `(3, 3, signed)` has step 2 — weight 1, input 2, bias −1 are values of their reported types,
+    the pre-activation `1` is not a value of the accumulator.  `BiasOK` therefore does not
+    include ternary / ±1 bias records. -/
+theorem C18_preactivation_unit_bias_counterexample :
+    let w : QRec := tTernary
+    let x : QRec := { tQuantizedBits with bits := 2, intBits := 2, signed := true }
+    let bq : QRec := tBinary false
+    Val w 1 ∧ Val x 2 ∧ Val bq (-1) ∧
+    ∃ lt, layerTypes .dense x w (some bq) [1, 1] = some lt ∧
+      lt.accumulator = { tQuantizedBits with bits := 3, intBits := 3, signed := true } ∧
+      ¬ Val lt.accumulator (dot [1] [2] + -1) := by
+  refine ⟨by simp [Val, tTernary], ⟨1, by decide, by decide, by simp [fixedLsb, b2i, tQuantizedBits, pow2]⟩,
+    by simp [Val, tBinary], _, rfl, by decide, not_val_of_eq
+      (q' := { tQuantizedBits with bits := 3, intBits := 3, signed := true }) (by decide) ?_⟩
+  simp only [Val, tQuantizedBits]
+  rw [valFixed_iff (by decide)]
+  rintro ⟨⟨k, hk⟩, _, _⟩
+  simp [dot, fixedLsb, b2i, pow2] at hk
+  have h2 : ((k * 2 : ℤ) : ℚ) = ((1 : ℤ) : ℚ) := by push_cast; linarith
+  have := Int.cast_injective h2
+  omega
+
+/-! ## the `is_inference=True` route (strengthening round, seed C18-6) -/
+
+/-- the inference block changes no record: `update_inference_values` only counts values -/
+theorem C18_inference_types_unchanged (w : QRec) (b : Option QRec) (c : InfConsts) (r : InfLayer)
+    (h : inferenceBlock w b c = .ok r) : r.w = w ∧ r.b = b := by
+  unfold inferenceBlock at h
+  cases b with
+  | some bq =>
+    simp only at h
+    injection h with h; subst h
+    refine ⟨?_, ?_⟩
+    · show (if w.isPo2 then updateInferenceValues w c.wv else (w, -1)).1 = w
+      split <;> rfl
+    · show some (if bq.isPo2 then updateInferenceValues bq c.bv else (bq, -1)).1 = some bq
+      split <;> rfl
+  | none =>
+    simp only at h
+    have hw : (if w.isPo2 then updateInferenceValues w c.wv else (w, -1)).1 = w := by split <;> rfl
+    cases hu : c.unusedBias with
+    | none => simp only [hu] at h; injection h with h; subst h; exact ⟨hw, rfl⟩
+    | some u =>
+      simp only [hu] at h
+      split at h
+      · cases h
+      · injection h with h; subst h; exact ⟨hw, rfl⟩
+
+theorem inferNode_fst (n : Node) (c : InfConsts) (n' : Node) (wc bc : ℤ)
+    (h : inferNode n c = .ok (n', wc, bc)) : n' = n := by
+  cases n with
+  | qact q => simp only [inferNode] at h; injection h with h; exact (Prod.mk.inj h).1.symm
+  | pass => simp only [inferNode] at h; injection h with h; exact (Prod.mk.inj h).1.symm
+  | layer kind w b shape act ap =>
+    simp only [inferNode] at h
+    cases hb : inferenceBlock w b c with
+    | indexError => simp only [hb] at h; cases h
+    | ok r =>
+      simp only [hb] at h
+      injection h with h
+      obtain ⟨rfl, rfl⟩ := C18_inference_types_unchanged w b c r hb
+      exact (Prod.mk.inj h).1.symm
+
+theorem inferChain_fst (nodes : List (Node × InfConsts)) (ns : List Node) (cs : List (ℤ × ℤ))
+    (h : inferChain nodes = .ok (ns, cs)) : ns = nodes.map (·.1) := by
+  induction nodes generalizing ns cs with
+  | nil => simp only [inferChain] at h; injection h with h; simp [(Prod.mk.inj h).1.symm]
+  | cons p rest ih =>
+    obtain ⟨n, c⟩ := p
+    simp only [inferChain] at h
+    cases hn : inferNode n c with
+    | indexError => simp only [hn] at h; cases h
+    | ok t =>
+      obtain ⟨n', wc, bc⟩ := t
+      simp only [hn] at h
+      cases hr : inferChain rest with
+      | indexError => simp only [hr] at h; cases h
+      | ok q =>
+        obtain ⟨ns', cs'⟩ := q
+        simp only [hr] at h
+        injection h with h
+        have h1 := (Prod.mk.inj h).1
+        rw [← h1, inferNode_fst n c n' wc bc hn, ih ns' cs' hr]
+        rfl
+
+/-- SAME REPORTS: whenever `QTools(..., is_inference=True)` produces a map for a chain, it is
+    the map of `is_inference=False` — every record of every node; so `C18_preactivation`,
+    `C18_preactivation_autopo2`, `C18_chain_input`, … speak about the inference route as well -/
+theorem C18_inference_same_reports (src : QRec) (nodes : List (Node × InfConsts))
+    (rs : Option (List NodeReport)) (cs : List (ℤ × ℤ))
+    (h : chainTypesInf src nodes = .ok (rs, cs)) : rs = chainTypes src (nodes.map (·.1)) := by
+  unfold chainTypesInf at h
+  cases hc : inferChain nodes with
+  | indexError => simp only [hc] at h; cases h
+  | ok q =>
+    obtain ⟨ns, cs'⟩ := q
+    simp only [hc] at h
+    injection h with h
+    rw [← (Prod.mk.inj h).1, inferChain_fst nodes ns cs' hc]
+
+/-- the clause of the property on this route: every constant handed to the block (kernel and
+    bias) that is a value of the quantizer's record is a value of the record REPORTED after the
+    block — for every record, every list of constants -/
+theorem C18_inference_constants_fit (w : QRec) (b : Option QRec) (c : InfConsts) (r : InfLayer)
+    (h : inferenceBlock w b c = .ok r) :
+    (∀ v ∈ c.wv, Val w v → Val r.w v) ∧
+    (∀ bq rb, b = some bq → r.b = some rb → ∀ v ∈ c.bv, Val bq v → Val rb v) := by
+  obtain ⟨hw, hb⟩ := C18_inference_types_unchanged w b c r h
+  refine ⟨fun v _ hv => hw ▸ hv, fun bq rb h1 h2 v _ hv => ?_⟩
+  rw [hb, h1] at h2
+  injection h2 with h2
+  exact h2 ▸ hv
+
+/-- `C18_preactivation` on the inference route: the types the block leaves behind report an
+    accumulator that holds every pre-activation -/
+theorem C18_preactivation_inference (kind : LayerKind) (x w : QRec) (b : Option QRec)
+    (shape : List ℕ) (c : InfConsts) (r : InfLayer) (h : inferenceBlock w b c = .ok r)
+    (hc : Covered w x) (ws xs : List ℚ) (bv : ℚ)
+    (hws : ∀ v ∈ ws, Val w v) (hxs : ∀ v ∈ xs, Val x v) (hb : BiasOK b bv)
+    (hex : ∀ p ∈ ws.zip xs, ¬ Exceptional w x p.1 p.2)
+    (hn : min ws.length xs.length ≤ kernelTerms (accShape kind shape)) :
+    ∃ lt, layerTypes kind x r.w r.b shape = some lt ∧ Val lt.accumulator (dot ws xs + bv) := by
+  obtain ⟨hw, hb'⟩ := C18_inference_types_unchanged w b c r h
+  rw [hw, hb']
+  obtain ⟨lt, h1, h2, _⟩ := C18_preactivation kind x w b shape hc ws xs bv hws hxs hb hex hn
+  exact ⟨lt, h1, h2⟩
+
+/-- `inference_value_counts`: written for po2 records only (`-1` otherwise), and then it is the
+    number of DISTINCT constants — a duplicate-free list with the same members as the tensor,
+    at least 1 and at most the tensor size -/
+theorem C18_inference_counts (w : QRec) (b : Option QRec) (c : InfConsts) (r : InfLayer)
+    (h : inferenceBlock w b c = .ok r) :
+    (w.isPo2 = false → r.wCounts = -1) ∧
+    (w.isPo2 = true → r.wCounts = ((distinctVals c.wv).length : ℤ) ∧ (distinctVals c.wv).Nodup ∧
+      (∀ v, v ∈ distinctVals c.wv ↔ v ∈ c.wv) ∧ (distinctVals c.wv).length ≤ c.wv.length ∧
+      (c.wv ≠ [] → 0 < (distinctVals c.wv).length)) := by
+  have hwc : r.wCounts = (if w.isPo2 then updateInferenceValues w c.wv else (w, -1)).2 := by
+    unfold inferenceBlock at h
+    cases b with
+    | some bq => simp only at h; injection h with h; subst h; rfl
+    | none =>
+      simp only at h
+      cases hu : c.unusedBias with
+      | none => simp only [hu] at h; injection h with h; subst h; rfl
+      | some u =>
+        simp only [hu] at h
+        split at h
+        · cases h
+        · injection h with h; subst h; rfl
+  refine ⟨fun hp => ?_, fun hp => ⟨?_, nodup_distinctVals _, mem_distinctVals _, length_distinctVals_le _,
+    distinctVals_pos⟩⟩
+  · rw [hwc, hp]; rfl
+  · rw [hwc, hp]; rfl
+
+/-- PARTIAL (no IndexError): the block succeeds for every layer WITH a bias weight, and for a
+    layer without one unless the quantizer left in the unused bias slot is a po2 quantizer -/
+theorem C18_inference_no_index_error_partial (w : QRec) (b : Option QRec) (c : InfConsts)
+    (h : b ≠ none ∨ c.unusedBias = none ∨ ∃ u, c.unusedBias = some u ∧ u.isPo2 = false) :
+    inferenceBlock w b c ≠ .indexError := by
+  unfold inferenceBlock
+  cases b with
+  | some bq => simp
+  | none =>
+    rcases h with h | h | ⟨u, hu, hp⟩
+    · exact absurd rfl h
+    · simp [h]
+    · simp [hu, hp]
+
+/-- COUNTEREXAMPLE (finding C18-inference-unused-po2-bias): `QDense(3, use_bias=False,
+    kernel_quantizer=quantized_bits(4,0), bias_quantizer=quantized_po2(3))`: the block tests
+    `bias_quantizer.is_po2` before the layer's `use_bias` is consulted and indexes `weights[1]`
+    of a one-element list — `QTools(..., is_inference=True)` raises IndexError and reports
+    nothing, although `is_inference=False` reports the layer (bias type `None`). -/
+theorem C18_inference_unused_po2_bias_counterexample :
+    let w : QRec := { tQuantizedBits with bits := 4, intBits := 0, signed := true }
+    let u : QRec := { tPowerOfTwo with bits := 3, intBits := 3, signed := true }
+    let x : QRec := { tQuantizedBits with bits := 4, intBits := 1, signed := true }
+    ofQuantizer { cls := "quantized_po2", bits := 3 } = some u ∧
+    inferenceBlock w none { wv := [1/2, -1/4], bv := [], unusedBias := some u } = .indexError ∧
+    chainTypesInf x [(.layer .dense w none [2, 1] none none,
+      { wv := [1/2, -1/4], bv := [], unusedBias := some u })] = .indexError ∧
+    (chainTypes x [.layer .dense w none [2, 1] none none]).isSome = true := by
+  refine ⟨rfl, rfl, rfl, by decide⟩
+
+/-- SOUND TIGHTENING (what an implementation of the TODO "update the quantizer type with min and
+    max of the constant values" may write): capping a po2 record's `max_val_po2` at ANY positive
+    `m` keeps every value whose MAGNITUDE is at most `m` — all bit widths, all previous caps.
+    So the cap must bound `max |weights|`. -/
+theorem C18_inference_cap_sound (q : QRec) (m : ℚ) (hm : 0 < m) (v : ℚ) (hv : ValPo2 q v)
+    (hle : |v| ≤ m) : ValPo2 (capPo2 q m) v := by
+  obtain ⟨e, h1, h2, h3⟩ := hv
+  have habs : |v| = pow2 e := by
+    have hp := pow2_pos e
+    rcases h3 with rfl | ⟨_, rfl⟩
+    · exact abs_of_pos hp
+    · rw [abs_neg]; exact abs_of_pos hp
+  have he : e ≤ ceilLog2Rat m := le_ceilLog2Rat_of_pow2_le hm (habs ▸ hle)
+  have hraw := po2MaxExpRaw_le q
+  refine ⟨e, h1, ?_, ?_⟩
+  · show e ≤ po2MaxExpRaw (capPo2 q m)
+    have : po2MaxExpRaw (capPo2 q m) = imin (ceilLog2Rat m) (po2Half q - 1) := by
+      show (if m ≤ 0 then 0 else imin (ceilLog2Rat m) (po2Half (capPo2 q m) - 1)) = _
+      rw [if_neg (not_le.2 hm)]; rfl
+    rw [this, imin_eq_min]
+    exact le_min he (le_trans h2 hraw)
+  · exact h3
+
+/-- COUNTEREXAMPLE TO THE SIGNED MAXIMUM (the mutation of seed C18-6): the constants
+    `−4, 1, 1/2, −1/4` are values of `quantized_po2(4)`; their largest SIGNED entry is `1`;
+    the record capped at 1 does not contain `−4` any more (while the cap `max |w| = 4` keeps
+    all four, by `C18_inference_cap_sound`). -/
+theorem C18_inference_cap_signed_max_counterexample :
+    let q : QRec := { tPowerOfTwo with bits := 4, intBits := 4, signed := true }
+    let ws : List ℚ := [-4, 1, 1/2, -1/4]
+    (∀ v ∈ ws, ValPo2 q v) ∧ listMax ws = 1 ∧ ¬ ValPo2 (capPo2 q 1) (-4) ∧
+    (∀ v ∈ ws, ValPo2 (capPo2 q 4) v) := by
+  intro q ws
+  have hall : ∀ v ∈ ws, ValPo2 q v := by
+    intro v hv
+    simp only [ws, List.mem_cons, List.not_mem_nil, or_false] at hv
+    rcases hv with rfl | rfl | rfl | rfl
+    · exact ⟨2, by decide, by decide, Or.inr ⟨rfl, by rw [pow2_eq_zpow]; norm_num⟩⟩
+    · exact ⟨0, by decide, by decide, Or.inl (by rw [pow2_eq_zpow]; norm_num)⟩
+    · exact ⟨-1, by decide, by decide, Or.inl (by rw [pow2_eq_zpow]; norm_num)⟩
+    · exact ⟨-2, by decide, by decide, Or.inr ⟨rfl, by rw [pow2_eq_zpow]; norm_num⟩⟩
+  refine ⟨hall, by decide +kernel, ?_, fun v hv => C18_inference_cap_sound q 4 (by norm_num) v (hall v hv) ?_⟩
+  · rintro ⟨e, _, h2, h3⟩
+    have hcap : po2MaxExpRaw (capPo2 q 1) = 0 := by decide +kernel
+    rw [hcap] at h2
+    rcases h3 with h3 | ⟨_, h3⟩
+    · have := pow2_pos e; linarith
+    · have h4 : pow2 e = pow2 2 := by
+        have : pow2 2 = 4 := by rw [pow2_eq_zpow]; norm_num
+        linarith
+      have := pow2_injective h4
+      omega
+  · simp only [ws, List.mem_cons, List.not_mem_nil, or_false] at hv
+    rcases hv with rfl | rfl | rfl | rfl <;> norm_num [abs_le]
+
 /-! ## non-vacuity -/
 
 example : Covered { tQuantizedBits with bits := 4, intBits := 0, signed := true }
@@ -593,5 +913,12 @@ example : ∃ lt, layerTypes .conv2d { tQuantizedBits with bits := 4, intBits :=
 example : analyzeAccumulator [[1/2, 1/2, -1/2], [-1/4, 1/4, 1/8]] [0, 0] (-1) (1/2) = .ok 1 := by
   decide +kernel
 example : analyzeAccumulator [[0, 0], [0, 0]] [0, 0] (-1) 1 = .overflowError := by decide +kernel
+-- the inference block on a po2 kernel and po2 bias: records unchanged, counts = distinct constants
+example : ∃ r, inferenceBlock { tPowerOfTwo with bits := 4, intBits := 4 }
+    (some { tPowerOfTwo with bits := 3, intBits := 3 })
+    { wv := [-4, 1, 1, -4, 1/2], bv := [2, 2], unusedBias := none } = .ok r ∧
+    r.wCounts = 3 ∧ r.bCounts = 1 := ⟨_, rfl, by decide +kernel, by decide +kernel⟩
+example : WFfixed { tQuantizedBits with bits := 6, intBits := 2, signed := true } :=
+  ⟨rfl, by decide, rfl, rfl, rfl, rfl⟩
 
 end QKV.Props.C18
